@@ -238,7 +238,7 @@ def outputs(ctx):
     from spyne.server.wsgi import WsgiApplication
     from .. import valcases as V, gen as G, schemaworld as W
     d = V.export(ctx)
-    cases = [c for c in d['cases'] if c['valid']] + d['outcases']
+    cases = [c for c in d['cases'] if c['valid'] and c['group'] != 'zone'] + d['outcases']      # (zone: see the note at the validators' comparison)
     fams = ('xml',) if ctx.quick else ('xml', 'soap11', 'soap12')
     apps = {}
     wd = os.path.join(ctx.work, 'xsdo')
@@ -370,6 +370,9 @@ def run(ctx):
     # (the repeated-member positions are C05's business; the quick tier keeps the four structural ones here)
     d, recs = c05.collect(ctx, with_lxml=True, families=['xml', 'soap11', 'soap12'],
                           positions=('arg', 'field', 'array', 'attr') if ctx.quick else None)
+    # (zone-less literals of a type with a declared zone: XML Schema orders values with and without a zone only partially - whether
+    #  such a literal satisfies a bound that carries a zone is not decided by the schema; soft validation alone is judged there, C05)
+    recs = [r for r in recs if r['case']['group'] != 'zone']
     fails = c05.judge(ctx, recs, schema=True)
     nf = 0
     for i, cl in sorted(fails.items()):
